@@ -221,6 +221,65 @@ def rule_p5(ctx, F):
     text_gate(ctx, "P5", fn, clamp, [("the start is raised to the parent's start exactly when it lies before it", [((".start_byte < (*", ").start_byte)"), True)])], accept_desc="raising the range start")
 
 
+def rule_l1(ctx, F):
+    """L1: a name resolved as a local reference is highlighted like its definition: the emitted
+    highlight is `reference_highlight.or(current_highlight)`; a definition's slot receives the highlight
+    its own node gets; the look-up matches by name and only definitions whose value ended before the
+    reference, searching outwards and stopping at the first scope that does not inherit."""
+    nxt = [f for f in F.fn_list if f.name.startswith("<HighlightIter") and f.name.endswith("::next")]
+    if not nxt:
+        return
+    fn = nxt[0]
+    starts = [(pt, x) for pt, e in fn.points() for x in own_walk(e) if x.get("k") == "agg" and x.get("variant") == "HighlightStart"]
+    ok = False
+    for pt, x in starts:
+        t = rsrules.deep_text(fn, x, user=True)
+        if "Option::<T>::or(" in t:
+            ok = True
+    ors = [(pt, x) for pt, e in fn.points() for x in own_walk(e) if x.get("k") == "call" and (x.get("fn") or "").endswith("Option::<T>::or") and len(x.get("a", [])) == 2]
+    refs, cur = None, None
+    if ors:
+        refs = rsrules.trace_root(fn, ors[0][1]["a"][0])
+        cur = rsrules.trace_root(fn, ors[0][1]["a"][1])
+    cur_ok = bool(cur) and any("highlight_indices" in rsrules.deep_text(fn, d, user=False) for i in fn.ids_named(cur) for d in fn.defs(i) if isinstance(d, dict))
+    if ok and refs and cur and cur_ok:
+        ctx.ok("L1", "next:emits-reference-highlight-first", "HighlightStart carries `%s.or(%s)`; the fallback is the capture's own highlight index" % (refs, cur))
+    else:
+        ctx.bad("L1", "next:emits-reference-highlight-first", "the HighlightStart event no longer carries reference_highlight.or(current_highlight): a local reference is not highlighted like its definition")
+        return
+    # the definition slot gets the node's own highlight
+    st = [pt for pt, e in fn.points() for x in own_walk(e) if x.get("k") == "assign" and strip(x["l"]).get("k") == "un" and strip(x["l"]).get("op") == "*"
+          and rsrules.trace_root(fn, x["r"]) == cur and "Highlight" in (strip(x["r"]).get("t") or "Highlight")]
+    if st:
+        ctx.ok("L1", "next:definition-slot-gets-own-highlight", "a definition's highlight slot is assigned the highlight its node gets (`%s`)" % cur)
+    else:
+        ctx.bad("L1", "next:definition-slot-gets-own-highlight", "the local definition's highlight slot is no longer assigned `%s`" % cur)
+    # the reference look-up: by name, value ended before the reference, outward, stop at non-inheriting scope
+    sets = [pt for pt, e in fn.points() for x in own_walk(e) if x.get("k") == "assign" and strip(x["l"]).get("k") == "ref" and strip(x["l"]).get("name") == refs and strip(x["r"]).get("k") == "ref"
+            and not (rsrules.cond_def(fn, x["r"]).get("k") == "agg" and rsrules.cond_def(fn, x["r"]).get("variant") == "None")]
+    ctx.floor("assignments of a found definition's highlight to `%s`" % refs, len(sets), 1)
+    text_gate(ctx, "L1", fn, sets, [("the reference highlight comes from a definition found in a scope", [(("Iterator::find_map(",), True), (("find_map", "=Some"), True)])], accept_desc="adopting a definition's highlight")
+    cl = [f for f in F.fn_list if f.name.startswith(fn.name + "::{closure") and any("value_range" in inline_text(f, e) for _, e in f.points())]
+    okc = False
+    for f in cl:
+        somes = [pt for pt, e in f.points() for x in own_walk(e) if x.get("k") == "assign" and show(x["l"]) == "_0" and strip(x["r"]).get("k") == "agg" and strip(x["r"]).get("variant") == "Some"]
+        if somes:
+            okc = True
+            text_gate(ctx, "L1", f, somes, [("a definition matches only by name", [((".name", "::eq("), True)]),
+                                            ("…and only if its value ended at or before the reference", [((">= (*", ").value_range.end)"), True)])], accept_desc="accepting a definition")
+    if not okc:
+        ctx.bad("L1", "next:definition-filter", "the closure that filters local definitions (name and value_range.end) was not found")
+    brk = None
+    for b in fn.blocks.values():
+        c = fn.cond(b.id)
+        if c is not None and rsrules.cond_text(fn, c, True)[0].endswith(".inherits"):
+            brk = b.id
+    if brk is not None:
+        ctx.ok("L1", "next:search-stops-at-non-inheriting-scope", "the outward search tests `scope.inherits`")
+    else:
+        ctx.bad("L1", "next:search-stops-at-non-inheriting-scope", "the reference search no longer stops at a scope that does not inherit")
+
+
 def emptying_points(F, fn, recv_sub, depth=0, seen=()):
     """Points of fn that leave the Vec denoted by `recv_sub` empty: Vec::clear, truncate(0), or a
     call of a local helper that empties its corresponding parameter on every path to its return."""
@@ -306,6 +365,7 @@ def run(ctx):
     rule_p3(ctx, F)
     rule_p4(ctx, F)
     rule_p5(ctx, F)
+    rule_l1(ctx, F)
     return ctx.finish(
         "Pairing, who-may-construct and gate rules over rustc MIR of tree-sitter-highlight: HighlightStart↔push and HighlightEnd↔pop of the end stack in both directions and nowhere else; "
         "Source spans only from emit_event (advancing byte_offset) and the tail; None only after the tail; raw bytes reach the HTML only unescaped-safe, never CR; final newline. "
